@@ -253,7 +253,9 @@ def _applier_total(facts, res, R):
         res.floor("T5", "applier role", 0, 1)
         return
     n = 0
-    for mb in [ap] + facts.closures_of(ap.path):
+    from ..common import members_of
+    ap_members = members_of(facts, ap)
+    for mb in ap_members:
         for bi, t in mb.calls():
             if t.callee is None or t.callee.target() not in ("revisiontree::RevisionTree::unvalidated_add", "revisiontree::RevisionTree::add"):
                 continue
@@ -269,7 +271,7 @@ def _applier_total(facts, res, R):
     # ... nor on anything else the trees already contain: the records of one block arrive in hash-map order, so a record
     # may legitimately precede the record of its own parent revision
     QUERIES = {"get_revisions", "get_leafs", "get_winner", "get_parent", "get_all_revs", "contains", "is_empty", "len", "has_staging", "get_full_parents"}
-    for mb in [ap] + facts.closures_of(ap.path):
+    for mb in ap_members:
         src = set()
         for bi, t in mb.calls():
             if t.callee is not None and (t.callee.impl_self or "") == "revisiontree::RevisionTree" and t.callee.name in QUERIES and \
